@@ -14,6 +14,7 @@ def run(prog, rep, tier):
     apply(rep, "A3c", "comparison alias table", r_pred.a3c(prog), 18)
     apply(rep, "O2", "cmp overrides cast to their own class", r_order.o2(prog), 15)
     apply(rep, "O3", "strict weak order on the abstract domain", r_order.o3(prog, tier), 1)
+    apply(rep, "O8", "attribute values are equal exactly when they are the same attribute of the same DIE, and ordered by (DIE, code) (value_attr::cmp interpreted)", r_order.o8(prog), 1)
     apply(rep, "O3d", "value_die::cmp consistency on abstract DIEs", r_order.o3_die(prog), 1)
     import r_core
     g = r_core.p5(prog, tier)
